@@ -17,7 +17,9 @@ git apply $out/patch.diff
 echo "tests_pass_with_change=$tests_ok demo_exit_with_change=$with demo_exit_without_change=$without" | tee -a $log
 tail -5 /tmp/seed_demo_with.$$ >> $log
 # run the check against a scratch copy of the sources with the change
-d=$(mktemp -d /tmp/seedXXXX); mkdir -p $d/src; cp -r $wt/src/lib $wt/src/ebusd $d/src/
+# (the current /repo sources with the change applied; falls back to the worktree's sources if the patch does not apply any more)
+d=$(mktemp -d /tmp/seedXXXX); mkdir -p $d/src; cp -r /repo/src/lib /repo/src/ebusd $d/src/
+if ! (cd $d && patch -p1 -s < $out/patch.diff) >/dev/null 2>&1; then rm -rf $d/src; mkdir -p $d/src; cp -r $wt/src/lib $wt/src/ebusd $d/src/; echo "patch applied to the worktree base only" | tee -a $log; fi
 cd /verif; VERIF_REPO=$d ./check $prop quick > /tmp/seed_check.$$ 2>&1; rc=$?
 grep -v "^INFRA" /tmp/seed_check.$$ | sed "s#$d#SCRATCH#g" | cut -c1-300 | tail -6 | tee -a $log
 echo "check_exit=$rc" | tee -a $log
